@@ -75,7 +75,9 @@ fn main() {
             "importers" => importers::run(sc),
             "wire" => wire::run(sc),
             "statement" => statement::run(sc),
+            "statement_doc" => statement::run_doc(sc),
             "record" => record::run(sc),
+            "left_strip" => record::run_left_strip(sc),
             "keyid" => keyspki::run_keyid(sc),
             "spki" => keyspki::run_spki(sc),
             "keytable" => keyspki::run_keytable(sc),
